@@ -39,8 +39,9 @@ func init() {
 			}
 		}()
 		for task := range retryerCh {
-			retryer := getRetryerOfResource(task.resource)
-			retryer.scheduleNodes(task.nodes)
+			if retryer := getRetryerOfResource(task.resource); retryer != nil {
+				retryer.scheduleNodes(task.nodes)
+			}
 		}
 	}()
 }
@@ -65,7 +66,10 @@ func getRetryerOfResource(resource string) *Retryer {
 		}
 		rule := getOutlierRuleOfResource(resource)
 		if rule == nil {
+			// The rule was removed after the task had been queued. A retryer without a rule has no
+			// check function (calling it panics in the timer goroutine) and must not be cached.
 			logging.Error(errors.New("nil outlier rule"), "Nil outlier rule in getRetryerOfResource()")
+			return nil
 		} else {
 			retryer.maxAttempts = rule.MaxRecoveryAttempts
 			retryer.interval = time.Duration(rule.RecoveryIntervalMs) * time.Millisecond
